@@ -154,3 +154,62 @@ def run(ctx):
     ctx.extra.update(tail.g.stats())
     ctx.extra["opaque_calls"] = sorted(tail.pol.opaque)[:40]
     ctx.extra["resolved_callee_summaries"] = {k: sorted(v) for k, v in sorted(tail.pol._summaries.items())}
+
+
+RE = "run_engine.py"
+MUTANTS = [
+    ("table: idle removed from transitions['pausing']",
+     [(RE, '"pausing": ["paused", "idle", "halting", "aborting", "panicked"],', '"pausing": ["paused", "halting", "aborting", "panicked"],')],
+     "C07.D1"),
+    ("not-resumable branch moves to 'stopping'",
+     [(RE, 'stashed_exception = FailedPause()\n\n                        self._state = "aborting"', 'stashed_exception = FailedPause()\n\n                        self._state = "stopping"')],
+     "C07.D1"),
+    ("guard '== paused' before returning to running dropped",
+     [(RE, '                    if self._state == "paused":\n                        # may be called by', '                    if True:\n                        # may be called by')],
+     "C07.D1"),
+    ("await inserted before the state write of _abort_coro",
+     [(RE, '        was_paused = self._state == "paused"\n        self._state = "aborting"\n        if was_paused:\n            with self._state_lock:\n                self._exception = RequestAbort()',
+       '        was_paused = self._state == "paused"\n        await asyncio.sleep(0)\n        self._state = "aborting"\n        if was_paused:\n            with self._state_lock:\n                self._exception = RequestAbort()')],
+     "C07.D1-request-atomic"),
+    ("pause block entered without the assert's state (suspending clears the permit)",
+     [(RE, '                    if self._state == "suspending":\n                        # just bounce to the top\n                        continue',
+       '                    if self._state == "suspending":\n                        self._run_permit.clear()\n                        continue')],
+     "C07.D1"),
+    ("_state written from bundlers.py",
+     [("bundlers.py", "        self.bundling = False\n\n    async def unmonitor", "        self.bundling = False\n        self._state = \"idle\"\n\n    async def unmonitor")],
+     "C07.D3"),
+    ("final idle write made conditional",
+     [(RE, '            self._state = "idle"\n\n        self.log.info("Cleaned up', '            if not self._interrupted:\n                self._state = "idle"\n\n        self.log.info("Cleaned up')],
+     "C07.D2"),
+    ("unstage in the cleanup no longer isolated",
+     [(RE, '                try:\n                    obj.unstage()\n                except Exception:\n                    self.log.exception("Failed to unstage %r.", obj)\n                self._staged.remove(obj)',
+       '                obj.unstage()\n                self._staged.remove(obj)')],
+     "C07.D2"),
+    ("force_set used to leave a state",
+     [(RE, '        self._clear_run_cache()\n        self._clear_call_cache()\n        self.dispatcher.unsubscribe_all()', '        self._state.force_set("idle")\n        self._clear_run_cache()\n        self._clear_call_cache()\n        self.dispatcher.unsubscribe_all()')],
+     "C07.D3"),
+    ("__call__ no longer refuses when not idle",
+     [(RE, '        if not self._state.is_idle:\n            raise RuntimeError(f"The RunEngine is in a {self._state} state")', '        if False:\n            raise RuntimeError(f"The RunEngine is in a {self._state} state")')],
+     "C07.D4"),
+    ("stop accepted from idle",
+     [(RE, '    async def _stop_coro(self):\n        if self._state.is_idle:\n            raise TransitionError("RunEngine is already idle.")', '    async def _stop_coro(self):\n        if self._state.is_idle:\n            pass')],
+     "C07.D4"),
+    ("setter no longer delegates to the checking machine",
+     [(RE, "        with obj._state_lock:\n            super().__set__(obj, value)\n        value = self.__get__(obj, own)", "        with obj._state_lock:\n            self.memory[obj] = value\n        value = self.__get__(obj, own)")],
+     "C07.D3"),
+    ("suspending may no longer return to running",
+     [(RE, '"suspending": ["running", "halting", "aborting", "panicked"],', '"suspending": ["halting", "aborting", "panicked"],')],
+     "C07.D1"),
+    ("CancelledError handler sends a halting engine back to the loop as 'running'",
+     [(RE, '                            stashed_exception = exception_map[self.state]\n                        continue',
+       '                            stashed_exception = exception_map[self.state]\n                        self._state = "running"\n                        continue')],
+     "C07.D1"),
+]
+BENIGN = [
+    ("extra logging in the cleanup",
+     [(RE, "            sys.stdout.flush()\n            # Emit RunStop if necessary.", "            sys.stdout.flush()\n            self.log.debug(\"closing runs\")\n            # Emit RunStop if necessary.")]),
+    ("pause request coroutine reordered (independent statements)",
+     [(RE, "        self._deferred_pause_requested = False\n        self._interrupted = True\n        self._state = \"pausing\"", "        self._interrupted = True\n        self._deferred_pause_requested = False\n        self._state = \"pausing\"")]),
+    ("membership test instead of chained comparison",
+     [(RE, '                if self._state in ("pausing", "suspending"):\n                    if not self.resumable:', '                if self._state == "pausing" or self._state == "suspending":\n                    if not self.resumable:')]),
+]
